@@ -8,7 +8,7 @@ from collections import Counter
 from fractions import Fraction
 from typing import Any, Dict, Iterable, List, Optional
 
-from harness.core import Case, Check, Finding, call, canon
+from harness.core import OUTSIDE, Case, Check, Finding, call, canon
 
 
 def _real():
@@ -179,6 +179,45 @@ def range_str(lo, hi):
     return f'{lo}-{hi}' if hi is not None else f'{lo}-'
 
 
+def width_tie_ranges(w: int, bps: List[int], ranges: List[str]):
+    """C19: "Line-width categorisation assigns each line to exactly one range defined by the boundary points" —
+    the statement does not say which of the two ranges meeting at a boundary point owns a width lying EXACTLY on
+    that point.  For such a width (and for no other) this returns the two candidate owners, taken from the list of
+    range labels `ranges` (ranges[j] ends at bps[j], the last one is open): the range under the reading
+    (prev, p] — the first range whose end is >= w — and the range under the reading [prev, p) — the first range
+    whose end is > w.  For an increasing boundary list these are exactly 'prev-p' and 'p-next'.  None when the
+    width is not on a boundary point (exact integer test on the case input): nothing is tolerated then."""
+    if w not in bps or len(ranges) != len(bps) + 1:
+        return None
+    closed_right = next((j for j, p in enumerate(bps) if p >= w), len(bps))
+    closed_left = next((j for j, p in enumerate(bps) if p > w), len(bps))
+    return {ranges[closed_right], ranges[closed_left]}
+
+
+def width_counts_reachable(ws: List[int], bps: List[int], ranges: List[str], model_cats: List[str]):
+    """every counter the model's counter turns into when each line whose width lies exactly on a boundary point is
+    put into either of its two candidate ranges (width_tie_ranges); all other lines stay where the model has them
+    and every range keeps its (possibly zero) entry.  Set of frozensets of (label, count)."""
+    base = Counter({r: 0 for r in ranges})
+    tied = []
+    for w, c in zip(ws, model_cats):
+        t = width_tie_ranges(w, bps, ranges)
+        if t is not None and c in t and len(t) == 2:
+            tied.append(sorted(t))
+        else:
+            base[c] += 1
+    states = {frozenset(base.items())}
+    for opts in tied:
+        nxt = set()
+        for s in states:
+            for lab in opts:
+                d = dict(s)
+                d[lab] = d.get(lab, 0) + 1
+                nxt.add(frozenset(d.items()))
+        states = nxt
+    return states
+
+
 class C19(Check):
     pid = 'C19'
     props_module = 'PagexmlModel.Props.C19'
@@ -219,7 +258,13 @@ class C19(Check):
         'compute_bounding_box_distances (their default, 50), the narrow-line step 5 of get_text_heights, the thresholds '
         'of the is_*_overlapping calls and the divisor of in_same_column are REGENERATED from the source on every run '
         '(translate() -> Generated/C19.lean); the proofs use only C19_consts_line_step_nonzero and '
-        'C19_consts_fallback_step_pos about them.')
+        'C19_consts_fallback_step_pos about them. Correspondence level: every returned array / average / category is '
+        'compared exactly, up to (a) the range of a line whose width lies EXACTLY on a boundary point (either of the two '
+        'ranges meeting there, per line and in the get_line_width_stats counter, whose key order is not compared; the '
+        'model keeps the code\'s half-open choice, C19_width_category), (b) the order inside the above / below parts of '
+        'sort_coords_above_below_baseline, (c) the exception class for an avg_type / unit the statement does not speak '
+        'of (rejected-vs-accepted); cases with a step <= 0 or with lines that have no baseline lie outside the '
+        'quantifier: differences there are only recorded and the oracle does not judge them.')
     assumptions = [
         'IEEE-double instance of mulDivTrunc satisfies MulDivTruncLaws and equals CPython on the expression '
         '(sampled on every run, never proved)',
@@ -591,7 +636,30 @@ class C19(Check):
                 out.append(Case(kind, {'p1': bl[0], 'p2': bl[-1], 'step': st}, ['malformed']))
             else:
                 out.append(Case(kind, {'p1': bl, 'p2': [bl[0]], 'step': rng.choice([st, 50])}, ['malformed']))
+        for c in out:
+            if self.outside(c.kind, c.input) and OUTSIDE not in c.tags:
+                c.tags.append(OUTSIDE)
         return out
+
+    @staticmethod
+    def outside(kind: str, i: Any) -> bool:
+        """inputs outside the quantifier of C19 — "all lines with polygon coordinates and piecewise-linear baselines
+        …, interpolation steps 5/10/50, …": (1) a step that is not positive ("multiples of the step" says nothing
+        for 0 or a negative step; positive steps other than 5/10/50 stay inside, the theorems and the oracle hold for
+        them); (2) regions / line lists containing a line WITHOUT a baseline (the bounding-box fall-back of
+        get_line_distances and the exceptions of the region functions on such lines are mirrored by the model, but no
+        clause of the statement speaks of them).  The model is still run on these cases; a difference is recorded in
+        the evidence (core.OUTSIDE), and the oracle does not judge them."""
+        if isinstance(i, dict) and isinstance(i.get('step'), int) and i['step'] <= 0:
+            return True
+
+        def no_baseline(r):
+            return any(l['baseline'] is None for l in r['lines']) or any(no_baseline(s) for s in r.get('subs', []))
+        if kind == 'region':
+            return no_baseline(i['region'])
+        if kind == 'line_distances':
+            return any(l['baseline'] is None for l in i['lines'])
+        return False
 
     @staticmethod
     def _move_region(r, dx, dy):
@@ -855,6 +923,8 @@ class C19(Check):
         if 'ok' not in m:
             return f'model answered {m}'
         mo = m['ok']
+        if k == 'width':
+            return self._cmp_width(case.input, impl_out, mo)
         for key, iv in impl_out.items():
             if key == 'interp' and key not in mo:
                 continue
@@ -862,11 +932,57 @@ class C19(Check):
             if key in self.Q_KEYS and isinstance(iv, dict) and 'ok' in iv and isinstance(mv, dict) and 'ok' in mv:
                 if not q_same(iv['ok'], mv['ok']):
                     return f'{key}: impl={iv} model={mv}'
-            elif k == 'width' and key == 'stats':
+            elif k == 'region' and key in self.INVALID_ARG and \
+                    case.input.get(self.INVALID_ARG[key][0]) not in self.INVALID_ARG[key][1]:
+                # the statement speaks of the macro and micro average and of widths in pixels / characters; for any
+                # other avg_type / unit it neither asks for a value nor for a particular exception: model and code
+                # are compared on rejected-vs-accepted (and on the value when both accept), not on the class
+                if isinstance(iv, dict) and 'err' in iv and isinstance(mv, dict) and 'err' in mv:
+                    continue
                 if iv != mv:
+                    return f'{key}: impl={iv} model={mv}'
+            elif key == 'above_below' and isinstance(iv, dict) and 'ok' in iv and isinstance(mv, dict) and 'ok' in mv:
+                # "the coordinate points are split into above and below the baseline without loss": which points are
+                # above and which below is compared exactly, the order inside the two parts is not part of the statement
+                if [sorted(part) for part in iv['ok']] != [sorted(part) for part in mv['ok']]:
                     return f'{key}: impl={iv} model={mv}'
             elif iv != mv:
                 return f'{key}: impl={iv} model={mv}'
+        return None
+
+    # key of the region outcome -> (input field holding the argument, the values the statement speaks of)
+    INVALID_ARG = {'avg_other': ('avg_type', ('macro', 'micro')), 'line_width_other': ('unit', ('char', 'pixel'))}
+
+    @staticmethod
+    def _cmp_width(i, io, mo):
+        """width categories: everything exact except the tie the statement leaves open — a width lying exactly on a
+        boundary point may be in either of the two ranges meeting there (width_tie_ranges); the list of range
+        labels, the label of every other width, the keys of the counter (zero entries included) and every count
+        not touched by a tied line are compared exactly"""
+        ws, bps = i['ws'], i['bps']
+        ranges = mo.get('ranges')
+        if io['ranges'] != ranges:
+            return f'ranges: impl={io["ranges"]} model={ranges}'
+        ic, mc = io['categories'], mo.get('categories')
+        if not isinstance(mc, list) or len(ic) != len(mc) or len(mc) != len(ws):
+            return f'categories: impl={ic} model={mc}'
+        for w, a, b in zip(ws, ic, mc):
+            if a != b:
+                t = width_tie_ranges(w, bps, ranges)
+                if t is None or a not in t or b not in t:
+                    return (f'categories: width {w} (boundary points {bps}): impl={a} model={b}'
+                            + (f'; the width is on a boundary point, its candidate ranges are {sorted(t)}' if t else ''))
+        # get_line_width_stats returns a Counter (a mapping: the order of its keys is not part of the statement)
+        ist, mst = io['stats'], mo.get('stats')
+        di, dm = {a: b for a, b in ist}, {a: b for a, b in (mst or [])}
+        if len(di) != len(ist) or not isinstance(mst, list) or len(dm) != len(mst) or set(di) != set(dm):
+            return f'stats: keys differ: impl={ist} model={mst}'
+        reach = width_counts_reachable(ws, bps, ranges, mc)
+        if frozenset(dm.items()) not in reach:
+            return f'stats: model counter {mst} does not count the model categories {mc}'
+        if frozenset(di.items()) not in reach:
+            return (f'stats: impl={ist} model={mst}: not the model counter with lines whose width is on a boundary '
+                    f'point moved between the two ranges meeting there (widths {ws}, boundary points {bps})')
         return None
 
     # ---------------------------------------------------------------- oracle
@@ -874,6 +990,8 @@ class C19(Check):
         fs: List[Finding] = []
         i = case.input
         k = case.kind
+        if self.outside(k, i):
+            return fs          # outside the quantifier (see outside()): not judged
 
         def bad(key, what):
             fs.append(Finding(f'C19:{key}', what, case, out))
